@@ -38,6 +38,7 @@ DAE(e, D) ==
       [] e.k = "qdef"   -> DAE(e.l, D) /\ DAE(e.r, D)
       [] e.k = "fstr"   -> SeqAll(e.parts, LAMBDA p : DAE(p, D))
       [] e.k = "range"  -> DAE(e.a, D) /\ DAE(e.b, D) /\ DAE(e.step, D)
+      [] e.k \in {"listb", "setb"} -> DAE(e.it, D) /\ DAE(e.e, D \cup {e.n}) /\ SeqAll(e.cs, LAMBDA c : DAE(c, D \cup {e.n}))
       [] e.k = "lam"    -> DAE(e.e, D \cup {e.ps[j].n : j \in 1..Len(e.ps)})
 
 \* names a parameter list binds (a name may be written "fin x")
